@@ -720,6 +720,11 @@ class SequenceOfEncoder(AbstractItemEncoder):
 class ChoiceEncoder(AbstractItemEncoder):
     def encodeValue(self, value, asn1Spec, encodeFun, **options):
         if asn1Spec is None:
+            # constraints of the CHOICE type itself (WITH COMPONENTS)
+            inconsistency = value.isInconsistent
+            if inconsistency:
+                raise inconsistency
+
             component = value.getComponent()
         else:
             names = [namedType.name for namedType in asn1Spec.componentType.namedTypes
